@@ -22,7 +22,9 @@ fn bits_nonfinite(bits: u64) -> bool {
     (bits >> 52) & 0x7ff == 0x7ff
 }
 
-fn check_sample(size: usize, buf: [u8; 40]) {
+/// `witness`: emit cover goals (off in the known-finding twin, whose solver output should only
+/// contain the counterexample).
+fn check_sample(size: usize, buf: [u8; 40], witness: bool) {
     let magic_ok = buf[36] == 0x4b && buf[37] == 0x43 && buf[38] == 0x4f && buf[39] == 0x53; // "KCOS" = LE 0x534f434b
     let pulse_zero = buf[24] == 0 && buf[25] == 0 && buf[26] == 0 && buf[27] == 0;
     let off_bits = le_u64(&buf, 16);
@@ -34,8 +36,10 @@ fn check_sample(size: usize, buf: [u8; 40]) {
             assert!(offset.to_bits() == off_bits, "offset is the f64 at bytes 16..24");
             assert!(leap == le_i32(&buf, 28), "leap is the i32 at bytes 28..32");
             assert!(!bits_nonfinite(off_bits) && offset.is_finite(), "accepted a non-finite offset");
-            kani::cover!(offset < 0.0, "accepted a negative offset");
-            kani::cover!(leap == 1, "accepted with leap = 1");
+            if witness {
+                kani::cover!(offset < 0.0, "accepted a negative offset");
+                kani::cover!(leap == 1, "accepted with leap = 1");
+            }
         }
         Err(code) => {
             // completeness + error classification (size is checked first, then magic, then pulse)
@@ -47,10 +51,12 @@ fn check_sample(size: usize, buf: [u8; 40]) {
             } else if !pulse_zero {
                 assert!(code == 4);
             }
-            kani::cover!(code == 2 && size == 39, "rejected size 39");
-            kani::cover!(code == 2 && size == 41, "rejected size 41");
-            kani::cover!(code == 3, "rejected wrong magic");
-            kani::cover!(code == 4, "rejected pulse");
+            if witness {
+                kani::cover!(code == 2 && size == 39, "rejected size 39");
+                kani::cover!(code == 2 && size == 41, "rejected size 41");
+                kani::cover!(code == 3, "rejected wrong magic");
+                kani::cover!(code == 4, "rejected pulse");
+            }
         }
     }
 }
@@ -62,7 +68,7 @@ fn c40_sample() {
     let size: usize = kani::any();
     let buf: [u8; 40] = kani::any();
     kani::assume(!bits_nonfinite(le_u64(&buf, 16)));
-    check_sample(size, buf);
+    check_sample(size, buf, true);
 }
 
 /// Expected to FAIL on the unchanged tree: NaN / +-inf offsets are accepted.
@@ -72,7 +78,7 @@ fn c40_sample_kf_nonfinite_offset() {
     let size: usize = kani::any();
     let buf: [u8; 40] = kani::any();
     kani::assume(bits_nonfinite(le_u64(&buf, 16)));
-    check_sample(size, buf);
+    check_sample(size, buf, false);
 }
 
 /// A failed receive is reported as an error, never as a sample.
